@@ -752,11 +752,13 @@ func (c *CqlServerConnection) SendRaw(rawResponse []byte) error {
 // Receive waits until the next request frame is received, or the configured idle timeout is triggered, or the
 // connection itself is closed, whichever happens first.
 func (c *CqlServerConnection) Receive() (*frame.Frame, error) {
-	if c.IsClosed() {
+	// read the channel before checking the closed flag: Close sets the flag first and the field to nil afterwards
+	incomingChan := c.incoming
+	if c.IsClosed() || incomingChan == nil {
 		return nil, fmt.Errorf("%v: connection closed", c)
 	}
 	log.Debug().Msgf("%v: waiting for incoming frame", c)
-	if incoming, ok := <-c.incoming; !ok {
+	if incoming, ok := <-incomingChan; !ok {
 		if c.IsClosed() {
 			return nil, fmt.Errorf("%v: connection closed", c)
 		} else {
